@@ -3,22 +3,40 @@
 //   param hist <spec> <n> <op>*n          one parameter, a whole history of operations in one line
 //   config hist <n> <cop>*n               one configurable_t, a history of register / lookup / config operations
 //   factory ids <F>                       ids of factory F
-//   factory walk <F> <'id> <ni> <int>*ni <nf> <hex>*nf
-//                                         type_id, registered parameters, clone equality, clone independence under
-//                                         modification (candidate values from the op line), clone of the modified
-//                                         clone, behavioural probe
-//   factory dump                          every id of every factory with every registered parameter (used by translate())
+//   factory walk <F> <'id> <mask> <ni> <int>*ni <nf> <hex>*nf
+//                                         configuration tree (type_id, registered parameters, owned objects), the
+//                                         parameters selected by the mask moved away from their defaults, clone equality
+//                                         (owned objects included), clone independence under modification (candidate
+//                                         values from the op line), clone of the modified clone, behavioural probe
+//   factory dump                          every id of every factory with every registered parameter and the ids of the
+//                                         objects it owns; the default constructed owners no factory hands out
+//                                         (ml::params_t, gboost_model_t) as whole configuration trees (used by translate())
+//   owner hist <n> <oop>*n                a history over variables holding objects that own other objects
+//                                         (solver -> lsearch0, lsearchk; ml::params_t -> tuner, solver, splitter;
+//                                         gboost_model_t -> prototype weak learners) and the objects they own:
+//       new <kind> <'id>                      factory get / default construction          -> new variable
+//       set <v> <'name> <assignment>          v.parameter(name) = value
+//       inst <d> <child> <s>                  d.child(object held by s)                   (the owner stores a copy)
+//       instid <d> <child> <'id>              d.child(id)
+//       protos <v> <n> <s>*n                  gboost.prototypes({objects held by s...})
+//       ext <v> <child>                       v.child().clone()                           -> new variable
+//       clone <v>                             v.clone() / copy construction               -> new variable
+//       assign <d> <s>                        d = s (copy assignment; params, gboost)
+//       probe <a> <b>                         do a and b behave identically on a probe input?
+//                                         after every operation the configuration tree of every variable is printed
 //
 // strings travel as `'` + percent-encoded bytes (so that the empty string and strings with blanks are one token).
 #include "common.h"
 #include <functional>
 #include <nano/datasource.h>
 #include <nano/function.h>
+#include <nano/gboost/model.h>
 #include <nano/generator.h>
 #include <nano/linear.h>
 #include <nano/loss.h>
 #include <nano/lsearch0.h>
 #include <nano/lsearchk.h>
+#include <nano/machine/params.h>
 #include <nano/solver.h>
 #include <nano/splitter.h>
 #include <nano/tuner.h>
@@ -817,6 +835,86 @@ void print_params(out_t& out, const parameters_t& params)
     }
 }
 
+// ---- configuration trees: type_id, registered parameters, owned objects (recursively) -----------------------
+struct tree_t
+{
+    std::string                                  type;
+    parameters_t                                 params;
+    std::vector<std::pair<std::string, tree_t>> kids;
+};
+
+void print_tree(out_t& out, const tree_t& tree)
+{
+    out << enc(tree.type);
+    print_params(out, tree.params);
+    out << static_cast<long long>(tree.kids.size());
+    for (const auto& kid : tree.kids)
+    {
+        out << kid.first;
+        print_tree(out, kid.second);
+    }
+}
+
+// canonical text of a tree: two trees are equal iff their texts are (doubles bit for bit)
+std::string text_of(const tree_t& tree)
+{
+    out_t out;
+    print_tree(out, tree);
+    return out.str();
+}
+
+template <class tobject>
+tree_t tree_of(const tobject& object)
+{
+    tree_t tree;
+    tree.type   = object.type_id();
+    tree.params = params_of(object);
+    if constexpr (std::is_base_of_v<solver_t, tobject>)
+    {
+        tree.kids.emplace_back("lsearch0", tree_of(object.lsearch0()));
+        tree.kids.emplace_back("lsearchk", tree_of(object.lsearchk()));
+    }
+    return tree;
+}
+
+tree_t tree_of(const ml::params_t& params)
+{
+    tree_t tree;
+    tree.type = "params";
+    tree.kids.emplace_back("tuner", tree_of(params.tuner()));
+    tree.kids.emplace_back("solver", tree_of(params.solver()));
+    tree.kids.emplace_back("splitter", tree_of(params.splitter()));
+    return tree;
+}
+
+tree_t tree_of(const gboost_model_t& model)
+{
+    tree_t tree;
+    tree.type   = "gboost";
+    tree.params = model.parameters();
+    size_t j    = 0;
+    for (const auto& proto : model.prototypes())
+    {
+        tree.kids.emplace_back("proto" + std::to_string(j++), tree_of(*proto));
+    }
+    return tree;
+}
+
+// the objects an object of a factory owns: (child, factory, id)
+template <class tobject>
+void print_kid_ids(out_t& out, const tobject& object)
+{
+    if constexpr (std::is_base_of_v<solver_t, tobject>)
+    {
+        out << 2 << "lsearch0" << "lsearch0" << enc(object.lsearch0().type_id()) << "lsearchk" << "lsearchk"
+            << enc(object.lsearchk().type_id());
+    }
+    else
+    {
+        out << 0;
+    }
+}
+
 bool try_assign(const std::function<void()>& f)
 {
     try
@@ -900,9 +998,52 @@ void modify(parameter_t& param, const std::vector<int64_t>& ic, const std::vecto
                parameter_t{param}.storage());
 }
 
+std::vector<double> run_solver_on(const solver_t& solver, const char* const fid, const tensor_size_t dims)
+{
+    const auto function = function_t::all().get(fid)->make(dims, 10);
+    vector_t   x0(function->size());
+    for (tensor_size_t i = 0; i < x0.size(); ++i)
+    {
+        x0(i) = (i % 2 == 0) ? -1.2 : 1.0;
+    }
+    const auto state = solver.minimize(*function, x0, make_null_logger());
+
+    std::vector<double> r{state.fx(), static_cast<double>(static_cast<int>(state.status())),
+                          static_cast<double>(state.fcalls()), static_cast<double>(state.gcalls())};
+    for (tensor_size_t i = 0; i < state.x().size(); ++i)
+    {
+        r.push_back(state.x()(i));
+    }
+    return r;
+}
+
+// the probe of the owner histories: a quadratic and, for the solvers that use the line-search objects they own, the
+// Rosenbrock function (on which the configuration of the line-search objects decides the trajectory; the bundle
+// methods need seconds on it)
+std::vector<double> run_solver_twice(const solver_t& solver)
+{
+    auto r1 = run_solver_on(solver, "sphere", 3);
+    if (solver.type() == solver_type::line_search)
+    {
+        const auto r2 = run_solver_on(solver, "rosenbrock", 2);
+        r1.insert(r1.end(), r2.begin(), r2.end());
+    }
+    return r1;
+}
+
+int probe_solvers(const solver_t& a, const solver_t& b)
+{
+    const auto r1 = run_solver_twice(a);
+    if (!same_doubles(r1, run_solver_twice(a)))
+    {
+        return -1;
+    }
+    return same_doubles(r1, run_solver_twice(b)) ? 1 : 0;
+}
+
 template <class tobject>
-std::string walk(const factory_t<tobject>& factory, const std::string& id, const std::vector<int64_t>& ic,
-                 const std::vector<double>& fc, int& applicable)
+std::string walk(const factory_t<tobject>& factory, const std::string& id, const uint64_t mask,
+                 const std::vector<int64_t>& ic, const std::vector<double>& fc, int& applicable)
 {
     const auto object = factory.get(id);
     if (!object)
@@ -910,24 +1051,36 @@ std::string walk(const factory_t<tobject>& factory, const std::string& id, const
         return "ok missing";
     }
     out_t out;
-    out << "ok" << enc(object->type_id());
-    const auto params = params_of(*object);
+    out << "ok";
+    const auto defaults = tree_of(*object);
+    print_tree(out, defaults);
+    const auto& params0 = defaults.params;
+
+    // the original is configured away from its defaults before it is cloned: bit (k % 62) of the mask <-> parameter k
+    const auto again = factory.get(id);
+    if constexpr (std::is_base_of_v<configurable_t, tobject>)
+    {
+        for (size_t k = 0; k < params0.size(); ++k)
+        {
+            if (((mask >> (k % 62U)) & 1U) != 0U)
+            {
+                modify(object->parameter(params0[k].name()), ic, fc);
+                modify(again->parameter(params0[k].name()), ic, fc);
+            }
+        }
+    }
+    const auto configured = tree_of(*object);
+    const auto& params     = configured.params;
+    out << "pre";
     print_params(out, params);
 
-    const auto clone   = object->clone();
-    const auto cparams = params_of(*clone);
-    auto       equal   = clone->type_id() == object->type_id() && cparams.size() == params.size();
-    for (size_t k = 0; equal && k < params.size(); ++k)
-    {
-        equal = cparams[k] == params[k];
-    }
-    out << "cloneeq" << (equal ? 1 : 0);
+    const auto clone = object->clone();
+    out << "cloneeq" << ((text_of(tree_of(*clone)) == text_of(configured)) ? 1 : 0);
 
     applicable = probe<tobject>(*object, *clone);
     out << "probe" << applicable;
 
     // a second get() must hand out an object that is independent of the first one as well
-    const auto again = factory.get(id);
     if constexpr (std::is_base_of_v<configurable_t, tobject>)
     {
         for (const auto& p : params)
@@ -936,32 +1089,16 @@ std::string walk(const factory_t<tobject>& factory, const std::string& id, const
             modify(again->parameter(p.name()), ic, fc);
         }
     }
-    const auto after  = params_of(*object);
-    const auto fresh  = params_of(*factory.get(id));
-    auto       intact = after.size() == params.size() && fresh.size() == params.size();
-    for (size_t k = 0; intact && k < params.size(); ++k)
-    {
-        intact = after[k] == params[k] && fresh[k] == params[k];
-    }
-    const auto mparams = params_of(*clone);
-    const auto aparams = params_of(*again);
-    auto       agree   = mparams.size() == aparams.size();
-    for (size_t k = 0; agree && k < mparams.size(); ++k)
-    {
-        agree = mparams[k] == aparams[k];
-    }
+    const auto intact = text_of(tree_of(*object)) == text_of(configured) &&
+                        text_of(tree_of(*factory.get(id))) == text_of(defaults);
+    const auto modified = tree_of(*clone);
+    const auto agree    = text_of(modified) == text_of(tree_of(*again));
     out << "origsame" << ((intact && agree) ? 1 : 0);
 
     // the clone of the modified clone carries the modified configuration (not the defaults)
     const auto reclone = clone->clone();
-    const auto rparams = params_of(*reclone);
-    auto       carried = reclone->type_id() == clone->type_id() && rparams.size() == mparams.size();
-    for (size_t k = 0; carried && k < mparams.size(); ++k)
-    {
-        carried = rparams[k] == mparams[k];
-    }
-    out << "reclone" << (carried ? 1 : 0) << "clone";
-    print_params(out, mparams);
+    out << "reclone" << ((text_of(tree_of(*reclone)) == text_of(modified)) ? 1 : 0) << "clone";
+    print_params(out, modified.params);
     return out.str();
 }
 
@@ -973,7 +1110,535 @@ void dump(out_t& out, const std::string& fname, const factory_t<tobject>& factor
         const auto object = factory.get(id);
         out << ";" << fname << enc(id) << enc(object ? object->type_id() : string_t{"<null>"});
         print_params(out, object ? params_of(*object) : parameters_t{});
+        if (object)
+        {
+            print_kid_ids(out, *object);
+        }
+        else
+        {
+            out << 0;
+        }
     }
+}
+
+// ---- histories over objects that own other objects -------------------------------------------------------
+struct var_t
+{
+    std::string                     kind;
+    rsolver_t                       solver;
+    rlsearch0_t                     lsearch0;
+    rlsearchk_t                     lsearchk;
+    rtuner_t                        tuner;
+    rsplitter_t                     splitter;
+    rwlearner_t                     wlearner;
+    std::unique_ptr<ml::params_t>   params;
+    std::unique_ptr<gboost_model_t> gboost;
+};
+
+template <class tfun>
+auto with_var(const var_t& v, const tfun& fn)
+{
+    if (v.kind == "solver")
+    {
+        return fn(*v.solver);
+    }
+    if (v.kind == "lsearch0")
+    {
+        return fn(*v.lsearch0);
+    }
+    if (v.kind == "lsearchk")
+    {
+        return fn(*v.lsearchk);
+    }
+    if (v.kind == "tuner")
+    {
+        return fn(*v.tuner);
+    }
+    if (v.kind == "splitter")
+    {
+        return fn(*v.splitter);
+    }
+    if (v.kind == "wlearner")
+    {
+        return fn(*v.wlearner);
+    }
+    if (v.kind == "params")
+    {
+        return fn(*v.params);
+    }
+    if (v.kind == "gboost")
+    {
+        return fn(*v.gboost);
+    }
+    throw bad_op("unknown kind " + v.kind);
+}
+
+tree_t tree_of(const var_t& v)
+{
+    return with_var(v, [](const auto& object) { return tree_of(object); });
+}
+
+bool make_var(var_t& v, const std::string& kind, const std::string& id)
+{
+    v.kind = kind;
+    if (kind == "solver")
+    {
+        v.solver = solver_t::all().get(id);
+        return static_cast<bool>(v.solver);
+    }
+    if (kind == "lsearch0")
+    {
+        v.lsearch0 = lsearch0_t::all().get(id);
+        return static_cast<bool>(v.lsearch0);
+    }
+    if (kind == "lsearchk")
+    {
+        v.lsearchk = lsearchk_t::all().get(id);
+        return static_cast<bool>(v.lsearchk);
+    }
+    if (kind == "tuner")
+    {
+        v.tuner = tuner_t::all().get(id);
+        return static_cast<bool>(v.tuner);
+    }
+    if (kind == "splitter")
+    {
+        v.splitter = splitter_t::all().get(id);
+        return static_cast<bool>(v.splitter);
+    }
+    if (kind == "wlearner")
+    {
+        v.wlearner = wlearner_t::all().get(id);
+        return static_cast<bool>(v.wlearner);
+    }
+    if (kind == "params")
+    {
+        if (id == kind)
+        {
+            v.params = std::make_unique<ml::params_t>();
+        }
+        return static_cast<bool>(v.params);
+    }
+    if (kind == "gboost")
+    {
+        if (id == kind)
+        {
+            v.gboost = std::make_unique<gboost_model_t>();
+        }
+        return static_cast<bool>(v.gboost);
+    }
+    throw bad_op("unknown kind " + kind);
+}
+
+// a copy of the object held by a variable: clone() for the objects of the factories, the copy constructor for the rest
+var_t copy_of(const var_t& s)
+{
+    var_t v;
+    v.kind = s.kind;
+    if (s.kind == "solver")
+    {
+        v.solver = s.solver->clone();
+    }
+    else if (s.kind == "lsearch0")
+    {
+        v.lsearch0 = s.lsearch0->clone();
+    }
+    else if (s.kind == "lsearchk")
+    {
+        v.lsearchk = s.lsearchk->clone();
+    }
+    else if (s.kind == "tuner")
+    {
+        v.tuner = s.tuner->clone();
+    }
+    else if (s.kind == "splitter")
+    {
+        v.splitter = s.splitter->clone();
+    }
+    else if (s.kind == "wlearner")
+    {
+        v.wlearner = s.wlearner->clone();
+    }
+    else if (s.kind == "params")
+    {
+        v.params = std::make_unique<ml::params_t>(*s.params);
+    }
+    else if (s.kind == "gboost")
+    {
+        v.gboost = std::make_unique<gboost_model_t>(*s.gboost);
+    }
+    else
+    {
+        throw bad_op("unknown kind " + s.kind);
+    }
+    return v;
+}
+
+std::string child_kind(const std::string& kind, const std::string& child)
+{
+    if (kind == "solver" && (child == "lsearch0" || child == "lsearchk"))
+    {
+        return child;
+    }
+    if (kind == "params" && (child == "tuner" || child == "solver" || child == "splitter"))
+    {
+        return child;
+    }
+    if (kind == "gboost" && child.size() > 5U && child.compare(0, 5, "proto") == 0 &&
+        child.find_first_not_of("0123456789", 5) == std::string::npos && (child.size() == 6U || child[5] != '0'))
+    {
+        return "wlearner";
+    }
+    throw bad_op("a " + kind + " owns no " + child);
+}
+
+struct oop_t
+{
+    std::string          kind, skind, child, id;
+    int64_t              a = 0, b = 0;
+    std::vector<int64_t> srcs;
+    op_t                 op;
+};
+
+oop_t read_oop(toks_t& toks)
+{
+    oop_t o;
+    o.kind = toks.s();
+    if (o.kind == "new")
+    {
+        o.skind = toks.s();
+        o.id    = dec(toks.s());
+    }
+    else if (o.kind == "set")
+    {
+        o.a  = toks.i64();
+        o.id = dec(toks.s());
+        o.op = read_op(toks);
+        if (o.op.kind[0] != 's')
+        {
+            throw bad_op("set takes an assignment");
+        }
+    }
+    else if (o.kind == "inst")
+    {
+        o.a     = toks.i64();
+        o.child = toks.s();
+        o.b     = toks.i64();
+    }
+    else if (o.kind == "instid")
+    {
+        o.a     = toks.i64();
+        o.child = toks.s();
+        o.id    = dec(toks.s());
+    }
+    else if (o.kind == "protos")
+    {
+        o.a    = toks.i64();
+        o.srcs = toks.ints();
+    }
+    else if (o.kind == "ext")
+    {
+        o.a     = toks.i64();
+        o.child = toks.s();
+    }
+    else if (o.kind == "clone")
+    {
+        o.a = toks.i64();
+    }
+    else if (o.kind == "assign" || o.kind == "probe")
+    {
+        o.a = toks.i64();
+        o.b = toks.i64();
+    }
+    else
+    {
+        throw bad_op("unknown owner op " + o.kind);
+    }
+    return o;
+}
+
+int probe_splitters(const splitter_t& a, const splitter_t& b)
+{
+    return probe<splitter_t>(a, b);
+}
+
+int probe_vars(const var_t& a, const var_t& b)
+{
+    if (a.kind != b.kind)
+    {
+        throw bad_op("probe of different kinds");
+    }
+    if (a.kind == "solver")
+    {
+        return probe_solvers(*a.solver, *b.solver);
+    }
+    if (a.kind == "splitter")
+    {
+        return probe_splitters(*a.splitter, *b.splitter);
+    }
+    if (a.kind == "params")
+    {
+        const auto p1 = probe_solvers(a.params->solver(), b.params->solver());
+        const auto p2 = probe_splitters(a.params->splitter(), b.params->splitter());
+        return (p1 == 0 || p2 == 0) ? 0 : 1;
+    }
+    return -1;
+}
+
+std::string owner_hist(toks_t& toks, std::string& aug)
+{
+    const auto         n = toks.i64();
+    std::vector<oop_t> oops;
+    for (int64_t k = 0; k < n; ++k)
+    {
+        oops.push_back(read_oop(toks));
+    }
+    if (!toks.done())
+    {
+        // the line is being replayed with the augmentation: drop it
+        if (toks.s() != "probes")
+        {
+            throw bad_op("trailing tokens");
+        }
+        toks.ints();
+        if (!toks.done())
+        {
+            throw bad_op("trailing tokens");
+        }
+        aug = aug.substr(0, aug.rfind(" probes "));
+    }
+
+    std::vector<var_t>   vars;
+    std::vector<int64_t> answers;
+    const auto var = [&](const int64_t i) -> var_t&
+    {
+        if (i < 0 || static_cast<size_t>(i) >= vars.size())
+        {
+            throw bad_op("no variable " + std::to_string(i));
+        }
+        return vars[static_cast<size_t>(i)];
+    };
+    const auto expect = [&](const var_t& v, const std::string& kind) -> const var_t&
+    {
+        if (v.kind != kind)
+        {
+            throw bad_op("a " + kind + " is expected, the variable holds a " + v.kind);
+        }
+        return v;
+    };
+
+    out_t out;
+    out << "ok";
+    for (const auto& o : oops)
+    {
+        std::string res;
+        if (o.kind == "new")
+        {
+            var_t v;
+            if (make_var(v, o.skind, o.id))
+            {
+                vars.push_back(std::move(v));
+                res = "ok";
+            }
+            else
+            {
+                res = "missing";
+            }
+        }
+        else if (o.kind == "set")
+        {
+            auto& v = var(o.a);
+            res     = guarded(
+                [&]() -> std::string
+                {
+                    if (v.kind == "params")
+                    {
+                        // ml::params_t has no parameters of its own
+                        throw std::runtime_error("unknown parameter");
+                    }
+                    return with_var(v,
+                                    [&](auto& object) -> std::string
+                                    {
+                                        if constexpr (std::is_base_of_v<configurable_t, std::decay_t<decltype(object)>>)
+                                        {
+                                            return apply_op(const_cast<std::decay_t<decltype(object)>&>(object)
+                                                                .parameter(o.id),
+                                                            o.op);
+                                        }
+                                        else
+                                        {
+                                            return std::string{"throw critical"};
+                                        }
+                                    });
+                });
+        }
+        else if (o.kind == "inst")
+        {
+            auto&       d  = var(o.a);
+            const auto  ck = child_kind(d.kind, o.child);
+            const auto& s  = expect(var(o.b), ck);
+            // the overloads taking an object and taking the smart pointer are both exercised
+            const auto  by_pointer = ((o.a + o.b) % 2) != 0;
+            if (d.kind == "solver" && ck == "lsearch0")
+            {
+                d.solver->lsearch0(*s.lsearch0);
+            }
+            else if (d.kind == "solver" && ck == "lsearchk")
+            {
+                d.solver->lsearchk(*s.lsearchk);
+            }
+            else if (d.kind == "params" && ck == "tuner")
+            {
+                by_pointer ? d.params->tuner(s.tuner) : d.params->tuner(*s.tuner);
+            }
+            else if (d.kind == "params" && ck == "solver")
+            {
+                by_pointer ? d.params->solver(s.solver) : d.params->solver(*s.solver);
+            }
+            else if (d.kind == "params" && ck == "splitter")
+            {
+                by_pointer ? d.params->splitter(s.splitter) : d.params->splitter(*s.splitter);
+            }
+            else
+            {
+                throw bad_op("inst: use protos for the weak learners of a gboost model");
+            }
+            res = "ok";
+        }
+        else if (o.kind == "instid")
+        {
+            auto&      d  = var(o.a);
+            const auto ck = child_kind(d.kind, o.child);
+            res           = guarded(
+                [&]() -> std::string
+                {
+                    if (d.kind == "solver" && ck == "lsearch0")
+                    {
+                        d.solver->lsearch0(o.id);
+                    }
+                    else if (d.kind == "solver" && ck == "lsearchk")
+                    {
+                        d.solver->lsearchk(o.id);
+                    }
+                    else if (d.kind == "params" && ck == "tuner")
+                    {
+                        d.params->tuner(o.id);
+                    }
+                    else if (d.kind == "params" && ck == "solver")
+                    {
+                        d.params->solver(o.id);
+                    }
+                    else if (d.kind == "params" && ck == "splitter")
+                    {
+                        d.params->splitter(o.id);
+                    }
+                    else
+                    {
+                        throw bad_op("instid: use protos for the weak learners of a gboost model");
+                    }
+                    return "ok";
+                });
+        }
+        else if (o.kind == "protos")
+        {
+            auto&        d = var(o.a);
+            rwlearners_t protos;
+            expect(d, "gboost");
+            for (const auto s : o.srcs)
+            {
+                protos.push_back(expect(var(s), "wlearner").wlearner->clone());
+            }
+            if (o.srcs.size() % 2U == 0U)
+            {
+                d.gboost->prototypes(protos);
+            }
+            else
+            {
+                d.gboost->prototypes(std::move(protos));
+            }
+            res = "ok";
+        }
+        else if (o.kind == "ext")
+        {
+            const auto& s  = var(o.a);
+            const auto  ck = child_kind(s.kind, o.child);
+            var_t       v;
+            v.kind = ck;
+            if (s.kind == "solver" && ck == "lsearch0")
+            {
+                v.lsearch0 = s.solver->lsearch0().clone();
+            }
+            else if (s.kind == "solver" && ck == "lsearchk")
+            {
+                v.lsearchk = s.solver->lsearchk().clone();
+            }
+            else if (s.kind == "params" && ck == "tuner")
+            {
+                v.tuner = s.params->tuner().clone();
+            }
+            else if (s.kind == "params" && ck == "solver")
+            {
+                v.solver = s.params->solver().clone();
+            }
+            else if (s.kind == "params" && ck == "splitter")
+            {
+                v.splitter = s.params->splitter().clone();
+            }
+            else
+            {
+                const auto j = static_cast<size_t>(std::stoll(o.child.substr(5)));
+                if (j >= s.gboost->prototypes().size())
+                {
+                    throw bad_op("the model has no " + o.child);
+                }
+                v.wlearner = s.gboost->prototypes()[j]->clone();
+            }
+            vars.push_back(std::move(v));
+            res = "ok";
+        }
+        else if (o.kind == "clone")
+        {
+            auto v = copy_of(var(o.a));
+            vars.push_back(std::move(v));
+            res = "ok";
+        }
+        else if (o.kind == "assign")
+        {
+            auto&       d = var(o.a);
+            const auto& s = expect(var(o.b), d.kind);
+            if (d.kind == "params")
+            {
+                *d.params = *s.params;
+            }
+            else if (d.kind == "gboost")
+            {
+                *d.gboost = *s.gboost;
+            }
+            else
+            {
+                throw bad_op("assign: the objects of the factories are not assignable");
+            }
+            res = "ok";
+        }
+        else
+        {
+            const auto answer = probe_vars(var(o.a), var(o.b));
+            answers.push_back(answer);
+            res = "probe " + std::to_string(answer);
+        }
+        out << ";" << res << "/" << static_cast<long long>(vars.size());
+        for (const auto& v : vars)
+        {
+            out << v.kind;
+            print_tree(out, tree_of(v));
+        }
+    }
+    aug += " probes " + std::to_string(answers.size());
+    for (const auto answer : answers)
+    {
+        aug += " " + std::to_string(answer);
+    }
+    return out.str();
 }
 } // namespace
 
@@ -988,6 +1653,10 @@ std::string vh::execute(toks_t& toks, std::string& aug)
     if (fam == "config" && op == "hist")
     {
         return config_hist(toks);
+    }
+    if (fam == "owner" && op == "hist")
+    {
+        return owner_hist(toks, aug);
     }
     if (fam == "factory" && op == "ids")
     {
@@ -1009,10 +1678,15 @@ std::string vh::execute(toks_t& toks, std::string& aug)
     }
     if (fam == "factory" && op == "walk")
     {
-        const auto f  = toks.s();
-        const auto id = dec(toks.s());
-        const auto ic = toks.ints();
-        const auto fc = toks.fs();
+        const auto f    = toks.s();
+        const auto id   = dec(toks.s());
+        const auto mask = toks.i64();
+        const auto ic   = toks.ints();
+        const auto fc   = toks.fs();
+        if (mask < 0)
+        {
+            throw bad_op("negative mask");
+        }
         if (!toks.done())
         {
             // the line is being replayed with the augmentation: drop it
@@ -1025,8 +1699,8 @@ std::string vh::execute(toks_t& toks, std::string& aug)
             aug            = aug.substr(0, pos);
         }
         int        applicable = -1;
-        const auto res =
-            with_factory(f, [&](const auto& factory) { return walk(factory, id, ic, fc, applicable); });
+        const auto res        = with_factory(
+            f, [&](const auto& factory) { return walk(factory, id, static_cast<uint64_t>(mask), ic, fc, applicable); });
         aug += " probe " + std::to_string(applicable < 0 ? 0 : 1);
         return res;
     }
@@ -1043,6 +1717,10 @@ std::string vh::execute(toks_t& toks, std::string& aug)
                              return std::string{};
                          });
         }
+        out << ";" << "owner" << "params";
+        print_tree(out, tree_of(ml::params_t{}));
+        out << ";" << "owner" << "gboost";
+        print_tree(out, tree_of(gboost_model_t{}));
         return out.str();
     }
     throw bad_op("unknown op " + fam + " " + op);
